@@ -162,6 +162,7 @@ func VerifC03Node() {
 	count := pick("count", 3)
 	payload := []byte{byte(count)}
 	var first *wire.BlockHeader
+	wellFormed := true
 	for i := 0; i < count; i++ {
 		var raw []byte
 		if nondetBool(fmt.Sprintf("real-bsv-header%d", i)) {
@@ -177,7 +178,13 @@ func VerifC03Node() {
 			first.Deserialize(bytes.NewReader(raw))
 		}
 		payload = append(payload, raw...)
-		payload = append(payload, 0)
+		// the transaction count that follows each header is zero in a conformant reply
+		txc := nondetU8(fmt.Sprintf("txcount%d", i))
+		verifAssume(txc < 0xfd)
+		if i == 0 && txc != 0 {
+			wellFormed = false
+		}
+		payload = append(payload, txc)
 	}
 	e.conn.in = frameMsg(wire.CmdHeaders, payload, false)
 	err := e.node.handleMessage(e.ctx, e.conn)
@@ -186,8 +193,10 @@ func VerifC03Node() {
 	if first != nil {
 		isBSV = first.BlockHash().Equal(bsv)
 	}
-	verifObserve("node", count, verifyOnly, err == nil)
-	if isBSV {
+	verifObserve("node", count, verifyOnly, err == nil, wellFormed)
+	// an error returned to the read loop ends the session like a closed connection does
+	dropped := e.conn.closed || err != nil
+	if isBSV && wellFormed {
 		verifReach("bsv-reply")
 		verifAssert(e.node.Verified(), "bsv-split-reply-not-verified")
 		if verifyOnly {
@@ -197,9 +206,16 @@ func VerifC03Node() {
 		}
 	} else {
 		verifReach("other-reply")
-		verifAssert(!e.node.Verified(), "peer-verified-without-the-bsv-split-header")
-		verifAssert(!e.node.IsReady(), "unverified-peer-is-ready")
-		verifAssert(e.conn.closed, "unverified-peer-not-disconnected")
+		if !wellFormed {
+			verifReach("malformed-reply")
+		}
+		if !isBSV {
+			verifAssert(!e.node.Verified(), "peer-verified-without-the-bsv-split-header")
+			verifAssert(!e.node.IsReady(), "unverified-peer-is-ready")
+		}
+		if !e.node.Verified() {
+			verifAssert(dropped, "unverified-peer-not-disconnected")
+		}
 	}
 	verifReach("done")
 }
